@@ -412,6 +412,13 @@ func orchestrate(env *Env, self string, only int) int {
 	// crashes are handed to the property's crash policy: by default a crash is a violation
 	replayDir := filepath.Join(verifRoot(), "evidence", "replay")
 	os.MkdirAll(replayDir, 0o755)
+	if only < 0 {
+		if old, _ := filepath.Glob(filepath.Join(replayDir, fmt.Sprintf("%s-%s-s%d-*", p.ID, env.Tier, env.Seed))); len(old) > 0 {
+			for _, f := range old {
+				os.Remove(f)
+			}
+		}
+	}
 	exit := 0
 	nviol := 0
 	workerFailed := false
